@@ -289,9 +289,13 @@ impl Node {
     pub fn submit(&self, block: &BlockView) -> Result<bool, String> {
         let snapshot = self.shared.snapshot();
         let consensus = snapshot.consensus();
-        HeaderVerifier::new(snapshot.as_ref(), consensus)
-            .verify(&block.header())
-            .map_err(|e| format!("header: {e}"))?;
+        let hv = std::panic::catch_unwind(std::panic::AssertUnwindSafe(|| {
+            HeaderVerifier::new(snapshot.as_ref(), consensus).verify(&block.header())
+        }));
+        match hv {
+            Ok(r) => r.map_err(|e| format!("header: {e}"))?,
+            Err(_) => return Err("header: PANIC in HeaderVerifier".into()),
+        }
         if snapshot.get_block_header(&block.parent_hash()).is_none() {
             return Err("parent not found".into());
         }
